@@ -53,6 +53,8 @@ import (
 	"fmt"
 	"os"
 	"path/filepath"
+	"runtime/debug"
+	"strconv"
 	"strings"
 	"sync/atomic"
 	"time"
@@ -76,6 +78,7 @@ type tupleOut struct {
 	findings []finding
 	patches  int // candidate + applied patches seen
 	updates  int // PackageUpdates checked
+	multi    int // patches with >= 2 PackageUpdates checked
 	dontcare map[string]int
 	log      []string
 }
@@ -146,6 +149,9 @@ func softLiteral(c *u.Case, r *u.Resolved, name string) (string, bool) {
 func checkUpdates(st string, c *u.Case, dir string, base []byte, ups []result.PackageUpdate, full []byte, kind string, out *tupleOut) {
 	if len(ups) == 0 {
 		return
+	}
+	if len(ups) > 1 {
+		out.multi++
 	}
 	for _, up := range ups {
 		if c.Level(up.Name) == 3 {
@@ -430,6 +436,7 @@ var scratchRoot = "/dev/shm/verif-c11"
 func main() {
 	r := ev.Start("C11", "exploration", 4*time.Minute, 36*time.Minute)
 	scratchRoot = fmt.Sprintf("%s-%d", scratchRoot, os.Getpid())
+	debug.SetGCPercent(400) // allocation-heavy XML/JSON parsing; memory is not the constraint
 
 	if f := os.Getenv("VERIF_REPLAY"); f != "" {
 		code := replay(f)
@@ -461,8 +468,15 @@ func main() {
 		dcTotals[k] = &atomic.Int64{}
 	}
 	perStrategy := map[string]map[string]int64{}
-	var updatesChecked atomic.Int64
+	var updatesChecked, multiChecked atomic.Int64
 	exhaustive := true
+	// development aid only: VERIF_DEBUG_STRIDE=k executes every k-th generated tuple (smoke test of the
+	// thorough bounds); such a run is never reported as exhaustive.
+	stride, genSeq := 0, 0
+	if k, err := strconv.Atoi(os.Getenv("VERIF_DEBUG_STRIDE")); err == nil && k > 1 {
+		stride = k
+		r.Cap("VERIF_DEBUG_STRIDE=%d: only every %d-th tuple executed", k, k)
+	}
 
 	runAll := func(st string, gen func(emit func(*u.Case))) {
 		var tuples, withPatch atomic.Int64
@@ -495,6 +509,7 @@ func main() {
 				}
 				putDir(dir)
 				updatesChecked.Add(int64(out.updates))
+				multiChecked.Add(int64(out.multi))
 				for k, n := range out.dontcare {
 					if a, ok := dcTotals[k]; ok {
 						a.Add(int64(n))
@@ -518,6 +533,9 @@ func main() {
 			chunk = chunk[:0]
 		}
 		gen(func(c *u.Case) {
+			if genSeq++; stride > 1 && genSeq%stride != 0 {
+				return
+			}
 			chunk = append(chunk, *c)
 			if len(chunk) == chunkSize {
 				flush()
@@ -549,11 +567,12 @@ func main() {
 	}
 	r.Set("tuples_per_strategy", perStrategy)
 	r.Set("package_updates_checked", updatesChecked.Load())
+	r.Set("patches_with_2plus_updates_checked", multiChecked.Load())
 	r.Set("dont_care_cells_hit", dc)
 	r.Assume("the in-memory deps.dev LocalClient and the npm/Maven resolvers of deps.dev/util/resolve are the resolution semantics (the same ones the repository's own tests use)")
 	r.Assume("vulnerability matching uses the repository's IsAffected (decided separately by C18)")
 	rule := "For every tuple (universe, manifest, vulnerability set, upgrade config) of the bounded product below, for npm/relax and Maven/override (all candidate patches of ComputePatches and the patches FixVulns applies) and Maven/Update: every PackageUpdate u of a patch P has level(u.Name) != none; with v0 = version u.Name resolves to in manifest+(P-u) and v1 = in manifest+P (real writer, reader and resolver), v1 > v0 in the reference order and the most significant differing component of v0->v1 is allowed by the level (major: any, minor: minor/patch, patch: patch); direct requirements of `none` packages are textually unchanged in the written manifest; no tuple panics or runs longer than 120 s. " +
-		"Bound (" + r.Tier + "): " + b.Describe() + "; shapes solo, chainT, chainD, diamondT, diamondD, two, chain2 (FixVulns) and update-solo, update-pair (Update) as defined in verif/universe/gen.go, each the full product of its lists, enumerated simplest first."
+		"Bound (" + r.Tier + "): " + b.Describe() + "; shapes " + strings.Join(u.FixShapes, ", ") + " (FixVulns; sharedprop Maven only) and update-solo, update-pair (Update) as defined in verif/universe/gen.go, each the full product of its lists, enumerated simplest first."
 	os.RemoveAll(scratchRoot)
 	r.Finish(rule, exhaustive)
 }
